@@ -9,6 +9,7 @@ import (
 	"flag"
 	"math"
 	"os"
+	"reflect"
 	"sort"
 
 	"github.com/mfcochauxlaberge/jsonapi"
@@ -166,17 +167,35 @@ func runRangeCase(c gCase) gEvent {
 			run := gRun{Order: order, Pages: [][]string{}, After: []string{}, NonNil: true}
 			// one id list and one rule list for all the pages of a walk, as a caller paging through has
 			idList, ruleList := append([]string{}, c.IDs...), append([]string{}, rules...)
+			idsOfPage := func(page jsonapi.Collection) []string {
+				ids := []string{}
+				for i := 0; i < page.Len(); i++ {
+					ids = append(ids, page.At(i).Get("id").(string))
+				}
+				return ids
+			}
+			var kept []jsonapi.Collection
 			for num := 0; num < c.Pages; num++ {
 				page := jsonapi.Range(col, idList, flt, ruleList, c.size(), uint(num))
 				ids := []string{}
 				if page == nil || reflectIsNil(page) {
 					run.NonNil = false
 				} else {
-					for i := 0; i < page.Len(); i++ {
-						ids = append(ids, page.At(i).Get("id").(string))
-					}
+					ids = idsOfPage(page)
 				}
+				kept = append(kept, page)
 				run.Pages = append(run.Pages, ids)
+			}
+			// a caller keeps the pages it was given: a later call (the other pages, another order) must
+			// not change an earlier result
+			_ = jsonapi.Range(col, nil, nil, []string{"-id"}, 3, 0)
+			for k, page := range kept {
+				if page == nil || reflectIsNil(page) {
+					continue
+				}
+				if now := idsOfPage(page); !reflect.DeepEqual(now, run.Pages[k]) {
+					run.Pages[k] = append(now, "changed-after-a-later-call")
+				}
 			}
 			for i := 0; i < col.Len(); i++ {
 				run.After = append(run.After, col.At(i).Get("id").(string))
